@@ -303,6 +303,17 @@ ob("C01", "F39.code_quoted_default", {"kind": R(0, 2)}, T=60, tier="witness", fu
    bound="witness obligation of known finding F39 (not expected to hold)")(f39_witness)
 
 
+# F48/F49: word_wrap=True + long str default / complex default with the prose stripped (witness only) ----------------------------------------------
+def f48_witness(k):
+    long_text = "By continuing you confirm that you have read and accept the current terms of use before any upload"
+    p = {"typ": "str", "doc": "first arg", "default": long_text} if k == 0 else {"typ": "complex", "doc": "first arg", "default": 1j}
+    return check(mk_ir([("a", p)]), "rest", True, True, word_wrap=True)
+
+
+ob("C01", "F48.wrapped_str_default", {"k": R(0, 1)}, T=60, tier="witness", funcs=FUNCS, twin=False,
+   bound="witness obligation of known findings F48/F49 (not expected to hold)")(f48_witness)
+
+
 def f21_witness(x):
     return check(mk_ir([("a", {"typ": "int", "doc": "The " + chr(x) + "a"})]), "numpydoc", True, False)
 
